@@ -288,26 +288,6 @@ def rule_block_contexts(ctx, rep, langs=ALL_LANGS):
                         rep.check(ok2, R, ent, '"%s" right after "%s" is accepted' % (w2, f1),
                                   '"%s" right after "%s" is refused (%r): a standard compound is rejected' % (w2, f1, r2))
     rep.floor(R, n, 150, 'blocking contexts evaluated')
-    # flag constants: single distinct bits, aggregates are the union of their members
-    for lang, ty, singles, aggregates in (('fr', 'lang::fr::Excludable', ['UN', 'DEUX', 'TROIS', 'QUATRE', 'CINQ', 'SIX'], {'UN_SIX': ['UN', 'DEUX', 'TROIS', 'QUATRE', 'CINQ', 'SIX']}),
-                                          ('de', 'lang::de::Excludable', ['TENS'], {}), ('nl', 'lang::nl::Excludable', ['TENS'], {}),
-                                          ('pt', 'lang::pt::Restriction', ['CONJUNCTION', 'ONLY_MULTIPLIERS'], {})):
-        if lang not in langs:
-            continue
-        ev = evaluator(ctx, lang)
-        try:
-            vals = {nme: ev.const_value('%s::%s' % (ty, nme)).bits for nme in singles + list(aggregates)}
-        except (Unanalysable, AttributeError) as e:
-            rep.anchor(R, lang + '|flag-constants', 'cannot evaluate the flag constants of %s: %s' % (ty, e))
-            continue
-        ok = all(vals[s] and vals[s] & (vals[s] - 1) == 0 for s in singles) and len({vals[s] for s in singles}) == len(singles)
-        for agg, members in aggregates.items():
-            u = 0
-            for mname in members:
-                u |= vals[mname]
-            ok = ok and vals[agg] == u
-        rep.check(ok, R, lang + '|flag-constants', 'flag constants are distinct single bits, aggregates are unions: %s' % vals,
-                  'flag constants of %s are inconsistent: %s' % (ty, vals))
 
 
 def _digits_after(b):
